@@ -83,7 +83,7 @@ pub fn check_position(run: &mut Run, s: u64, n: usize, oi: usize, seen: Option<&
 fn run(ctx: &Ctx) -> Run {
     silence_panics();
     let threads = ctx.threads;
-    let exhaustive_to: usize = if ctx.quick() { 9 } else { 11 };
+    let exhaustive_to: usize = if ctx.quick() { 9 } else { 12 };
     let mut out = parallel(threads, |w, run| {
         let mut rng = ctx.rng("C17", w);
         // (1) exhaustive: each (n, orientation) is one job; a job owns the set of centres seen, so distinctness is global per job
